@@ -183,7 +183,9 @@ def propagated(e, p, half):
     """(value, bound on the change of the value) at point p when every printed constant of e may be off by
     `half` (first-order interval propagation, exact rationals).  None = a divisor may vanish within the bound."""
     if isinstance(e, str):
-        return Fraction(e), half
+        # (a constant is computed and printed in doubles: beyond ~15 significant digits it is off by its own
+        # resolution, which for coefficients of 1e15 is more than any requested decimal)
+        return Fraction(e), max(half, abs(Fraction(e)) / 10 ** 14)
     h = e[0]
     if h in ("+", "-", "*", "/", "=", "<", "<=", ">", ">=") and len(e) == 3:
         a, b = propagated(e[1], p, half), propagated(e[2], p, half)
